@@ -247,6 +247,24 @@ def generate(rng, tier, seed):
                         c = Case(f"{ver}:block-surgery", {"fix": fix})
                         check_verdict(c, unwrap_case(c, kbpk, s), s, G, hl, key)
                         yield c
+                # other spellings of the same byte values: what a number parser accepts in place of two hex digits - a sign or a blank
+                # for a leading zero, a trailing blank, Unicode decimal digits of the same value (fullwidth, Arabic-Indic, Devanagari)
+                respelt = []
+                for j in range(hl, n, 2):
+                    pair = G[j:j + 2]
+                    if pair[0] == "0":
+                        respelt += [(j, x + pair[1]) for x in ("+", " ", "\t", "\n", "\uff10", "\u0660")] + [(j, pair[1] + " ")]
+                        if pair == "00":
+                            respelt += [(j, "-0"), (j, "+0")]
+                    if pair.isdigit() and len(respelt) < 200:
+                        respelt += [(j, "".join(chr(0xFF10 + int(d)) for d in pair)), (j, pair[0] + chr(0x0660 + int(pair[1]))), (j, chr(0x0966 + int(pair[0])) + pair[1])]
+                if len(respelt) > 60:
+                    respelt = respelt[:20] + rng.sample(respelt[20:], 40)
+                for j, new in respelt:
+                    s = G[:j] + new + G[j + 2:]
+                    c = Case(f"{ver}:same-value-other-spelling", {"section": "mac" if j >= n - 2 * ml else "key data"})
+                    check_verdict(c, unwrap_case(c, kbpk, s), s, G, hl, key)
+                    yield c
                 # whitespace inside the MAC / key data fields (bytes.fromhex skips it between byte pairs)
                 for ws in (" ", "\t", "\n"):
                     cands = [G[:n - 2 * ml] + ws * (2 * ml)]
